@@ -518,9 +518,9 @@ fn main() {
     }
     // Two passes (iterated deviation bound): deep without deviations (only fresh, valid
     // announcements and gossip ticks — relay bookkeeping needs depth), shallower with deviations.
-    let (d0, d1, k1) = if thorough { (5, 3, 2) } else { (3, 2, 1) };
-    let deep = explore::explore("C10", Sys::new, Bounds::new(d0, 0).wall_secs(if thorough { 900 } else { 28 }));
-    let mut res = explore::explore("C10", Sys::new, Bounds::new(d1, k1).wall_secs(if thorough { 900 } else { 25 }));
+    let (d0, d1, k1) = if thorough { (5, 4, 2) } else { (4, 3, 1) };
+    let deep = explore::explore("C10", Sys::new, Bounds::new(d0, 0).wall_secs(if thorough { 900 } else { 60 }));
+    let mut res = explore::explore("C10", Sys::new, Bounds::new(d1, k1).wall_secs(if thorough { 900 } else { 40 }));
     res.violations.merge(deep.violations.clone());
     let deep_cov = deep.coverage("pass 1: deviation budget 0");
     let mut cov = res.coverage(
